@@ -12,7 +12,7 @@ CFG = dict(
     header=H + "From NV.C07 Require Import Types Model Run.\nOpen Scope N_scope.",
     kinds={"hdr": ("hdr_case", "check_hdr"), "rt": ("rt_case", "check_rt_full"),
            "q": ("q_case", "check_q"), "crash": ("crash_case", "check_crash")},
-    known_classes={0: "quant-bytes-scalar", 1: "quant-id-list", 2: "sparse-threshold", 3: "tmp-extension"},
+    known_classes={0: "quant-bytes-scalar", 1: "quant-id-list", 2: "sparse-threshold", 3: "tmp-extension"},  # 1-3 were fixed in /repo: a hit is a violation again
     shard=60,
     rule="seeded stores over all value kinds and key classes, saved and reloaded through files (zstd / raw), bytes and the quantising format on the real tensor_store and on the Gallina model; mid-save crash states captured through the guarded hook and truncated at every byte",
     trusted_base=COMMON_TB + [
